@@ -7,11 +7,16 @@ import (
 	"encoding/json"
 	"fmt"
 	"regexp"
+	"sort"
 	"strconv"
 	"strings"
 
 	"go.opentelemetry.io/collector/confmap/xconfmap"
 )
+
+var hSeen = map[string]bool{}
+
+var hTypeRe = regexp.MustCompile(`unknown type: "[^"]*" for id: "([^"]*)"`)
 
 var hDupRe = regexp.MustCompile(`^references processor "([A-Za-z0-9_/]*)" multiple times$`)
 
@@ -98,6 +103,40 @@ func dWhole(out *vOut, r *vRand) {
 			pds = append(pds, p)
 		}
 		doc["service"] = map[string]any{"pipelines": pipes}
+		// a component of a type that does not exist (a misspelt type), in a random section
+		badID := ""
+		if r.Intn(4) == 0 {
+			kind := []string{"receivers", "exporters", "connectors", "processors", "extensions"}[r.Intn(5)]
+			badID = []string{"nopp", "otlpp/x", "batchh", "forwardd/a", "zpagess"}[r.Intn(5)]
+			if kind == "extensions" {
+				doc[kind] = map[string]any{badID: nil}
+			} else {
+				doc[kind].(map[string]any)[badID] = map[string]any{}
+			}
+			js2, _ := json.Marshal(doc)
+			_, lerr := dLoad(doc)
+			obsT := "None"
+			if lerr == nil {
+				out.Oracle("unknown-type-accepted", "(CTypes [] [] None)", "a component of a type that does not exist is silently accepted: "+string(js2))
+			} else if m := hTypeRe.FindStringSubmatch(lerr.Error()); m != nil {
+				obsT = "(Some " + vStr(m[1]) + ")"
+				if m[1] != badID {
+					out.Oracle("unknown-type-wrong-entry", "(CTypes [] [] None)", "the error names "+m[1]+" instead of "+badID+": "+lerr.Error())
+				}
+			} else {
+				out.Oracle("unknown-type-not-named", "(CTypes [] [] None)", "load failed without naming the unknown type: "+lerr.Error())
+			}
+			known := map[string][]string{"receivers": {"nop", "otlp"}, "exporters": {"debug", "nop", "otlp", "otlphttp"}, "connectors": {"forward"},
+				"processors": {"batch", "memory_limiter"}, "extensions": {"memory_limiter", "zpages"}}[kind]
+			var ids []string
+			for id := range doc[kind].(map[string]any) {
+				ids = append(ids, id)
+			}
+			sort.Strings(ids)
+			out.Case(true, "(CTypes "+hStrs(known)+" "+hStrs(ids)+" "+obsT+")")
+			out.Stat("whole.unknown-type."+kind, 1)
+			continue
+		}
 		js, _ := json.Marshal(doc)
 		// ---- independent expectation
 		in := func(s string, l ...[]string) bool {
@@ -208,6 +247,11 @@ func dWhole(out *vOut, r *vRand) {
 						out.Oracle("cfg-unclassified", term, e.Error())
 						continue
 					}
+				}
+				if ct := "(CPipe (mkPipe " + vStr(p.id) + " " + vStr(id.Signal().String()) + " " + hStrs(p.rs) + " " + hStrs(p.ps) + " " + hStrs(p.es) + ") " + o + ")"; hSeen[ct] {
+					continue
+				} else {
+					hSeen[ct] = true
 				}
 				out.Case(o != "None", "(CPipe (mkPipe "+vStr(p.id)+" "+vStr(id.Signal().String())+" "+hStrs(p.rs)+" "+hStrs(p.ps)+" "+hStrs(p.es)+") "+o+")")
 			}
